@@ -169,11 +169,16 @@ func Hash(key string) uint64 {
 	return h.Sum64()
 }
 
-func (r *Rec) Rule(s string)            { r.mu.Lock(); r.s.Rule = s; r.mu.Unlock() }
-func (r *Rec) Assume(s ...string)       { r.mu.Lock(); r.s.Assume = append(r.s.Assume, s...); r.mu.Unlock() }
-func (r *Rec) Extra(k string, v any)    { r.mu.Lock(); r.s.Extra[k] = v; r.mu.Unlock() }
-func (r *Rec) Exhaustive(b bool)        { r.mu.Lock(); r.s.Exhaustive = b; r.mu.Unlock() }
-func (r *Rec) AddExtra(k string, n int) { r.mu.Lock(); c, _ := r.s.Extra[k].(int); r.s.Extra[k] = c + n; r.mu.Unlock() }
+func (r *Rec) Rule(s string)         { r.mu.Lock(); r.s.Rule = s; r.mu.Unlock() }
+func (r *Rec) Assume(s ...string)    { r.mu.Lock(); r.s.Assume = append(r.s.Assume, s...); r.mu.Unlock() }
+func (r *Rec) Extra(k string, v any) { r.mu.Lock(); r.s.Extra[k] = v; r.mu.Unlock() }
+func (r *Rec) Exhaustive(b bool)     { r.mu.Lock(); r.s.Exhaustive = b; r.mu.Unlock() }
+func (r *Rec) AddExtra(k string, n int) {
+	r.mu.Lock()
+	c, _ := r.s.Extra[k].(int)
+	r.s.Extra[k] = c + n
+	r.mu.Unlock()
+}
 
 // Case records one generated case.  class feeds the histogram; nontrivial says whether it meets
 // the property's stated non-triviality rule; key identifies the case for de-duplication;
@@ -286,3 +291,6 @@ func LoadReplay(into any) (bool, error) {
 	}
 	return true, json.Unmarshal(w.Replay, into)
 }
+
+// HasFail reports whether a failure is remembered and not yet flushed.
+func (r *Rec) HasFail() bool { r.mu.Lock(); defer r.mu.Unlock(); return r.lastFail != nil }
